@@ -42,7 +42,12 @@ static int st_calls, st_id;
 static unsigned st_a[14];
 static const uint8_t *st_ptr;
 static bool st_locks_ok = true;
-static void rec(int id) { st_calls++; st_id = id; }
+/* handlers that document no lock precondition are entered with no lock held (so that the lock order of
+ * dispatcher + handler is the one the per-handler harnesses C07/C08 verify) */
+static void rec(int id) {
+	st_calls++; st_id = id;
+	if (id != 7 /*S_ACC_ACK*/ && id != 8 /*S_CS_DRIVE*/ && id != 9 /*S_ACC_MANUAL*/ && !verif_all_free()) st_locks_ok = false;
+}
 /* MODE_SHORT (C12-H3): pointer-taking handlers read exactly the range their contract allows */
 static unsigned touch_sum;
 static void touch(const uint8_t *p, size_t n) {
